@@ -27,6 +27,8 @@
   `C16_allwords_false` below, reproduced on the real picker by `heur -suite c16 -bit15`.  Such values
   never reach the picker (the transposition table only stores generated moves or 0).
 -/
+import ChessVerif.Model.Guards.Heur
+import ChessVerif.Model.Guards.Picker
 import ChessVerif.Proofs.PickerPerm
 import ChessVerif.Proofs.PickerExhaust
 import ChessVerif.Proofs.HeurBands
